@@ -147,10 +147,16 @@ impl HotTier {
             inserted_at: Instant::now(),
         };
 
-        self.documents.write().insert(doc_id, doc);
+        // Lock order everywhere else in this type is `documents` before `stats`; taking
+        // `documents` again while holding `stats` deadlocks against delete / drain.
+        let current_size = {
+            let mut docs = self.documents.write();
+            docs.insert(doc_id, doc);
+            docs.len()
+        };
 
         let mut stats = self.stats.write();
-        stats.current_size = self.documents.read().len();
+        stats.current_size = current_size;
         stats.total_inserts += 1;
     }
 
